@@ -30,7 +30,7 @@ def cols(f, n):
     out = []
     for j in range(n):
         e = np.zeros(n); e[j] = 1.0
-        out.append(np.asarray(f(e), dtype=float).ravel())
+        out.append(np.array(np.asarray(f(e), dtype=float).ravel(), copy=True))   # copy NOW: the callable may reuse its buffer
     return np.column_stack(out) if out else np.zeros((0, 0))
 
 
@@ -180,7 +180,95 @@ def probe(make_model):
                 rhs = float(np.dot(x, np.asarray(M.adjoint(y), dtype=float).ravel()))
                 res["ip"].append((x.tolist(), y.tolist(), lhs, rhs))
         probe_reps(make_model, M, res)
+        probe_inputs(M, res)
     return res
+
+
+SCALES = (0.0, 1e-30, 1e-15, 1e-9, 1e9, 1e15)
+
+
+def vec_variants(v):
+    """the same numbers in other array guises (G1 dtype, G7 layout / read-only): name -> array"""
+    n = len(v)
+    big = np.zeros(2 * n); big[::2] = v
+    rev = np.ascontiguousarray(v[::-1])
+    ro = v.copy(); ro.setflags(write=False)
+    return {"int64": v.astype(np.int64), "float32": v.astype(np.float32), "strided": big[::2], "negstride": rev[::-1], "readonly": ro}
+
+
+def probe_inputs(M, res):
+    """(a) homogeneity: f(s*x) for s from 0 to 1e±15 (a linear map has no absolute threshold);
+    (b) the same integer vector as int64 / float32 / strided / negative-stride / read-only array;
+    (c) the caller's vectors are not modified; (d) every returned array is kept and re-verified at the end."""
+    X, Y = res["repX"], res["repY"]
+    res["scaled"], res["variants"], res["input_modified"], kept = {}, {}, [], []
+    # magnitude of the raw operator (function level): the round-off floor of a parameter-level result that cancels to 0
+    mag = 0.0
+    try:
+        for j in range(res["n"]):
+            e = np.zeros(res["n"]); e[j] = 1.0
+            mag = max(mag, float(np.abs(_plain(M._forward_func(M.domain_geometry.par2fun(e)))).max()))
+    except Exception:
+        pass
+    for k_ in ("fwd", "adj"):
+        if res[k_] is not None and res[k_].size:
+            mag = max(mag, float(np.abs(res[k_]).max()))
+    res["opmag"] = mag
+    for op, f, V in (("fwd", M.forward, X), ("adj", M.adjoint, Y)):
+        if res[op] is None:
+            continue
+        for s_ in SCALES:
+            try:
+                outs = []
+                for j in range(V.shape[1]):
+                    v = s_ * V[:, j]; v0 = v.copy()
+                    r = f(v)
+                    kept.append((r, np.array(_plain(r), copy=True)))
+                    outs.append(np.array(_plain(r).reshape(-1), copy=True))
+                    if not np.array_equal(v, v0):
+                        res["input_modified"].append(f"{op}(x*{s_:g})")
+                res["scaled"][(op, s_)] = np.column_stack(outs)
+            except Exception as e:
+                res["scaled"][(op, s_)] = None; res["scaled"][(op, s_, "err")] = repr(e)[:100]
+        for name, v in vec_variants(V[:, 0]).items():
+            try:
+                v0 = np.array(v, copy=True)
+                r = f(v)
+                kept.append((r, np.array(_plain(r), copy=True)))
+                res["variants"][(op, name)] = np.array(_plain(r).reshape(-1), copy=True)
+                if not np.array_equal(np.asarray(v), v0):
+                    res["input_modified"].append(f"{op}({name})")
+            except Exception as e:
+                res["variants"][(op, name)] = None; res["variants"][(op, name, "err")] = repr(e)[:100]
+    # (d) retained outputs: nothing the model returned earlier may have changed meanwhile
+    res["retained_changed"] = sum(1 for (r, c) in kept if not np.array_equal(_plain(r), c, equal_nan=True))
+    res["retained_n"] = len(kept)
+
+
+def inputs_expected(res, fwd, adj):
+    X, Y = res["repX"], res["repY"]
+    sc, va = {}, {}
+    for op, Mx, V in (("fwd", fwd, X), ("adj", adj, Y)):
+        if Mx is None:
+            continue
+        for s_ in SCALES:
+            sc[(op, s_)] = Mx @ (s_ * V)
+        for name in ("int64", "float32", "strided", "negstride", "readonly"):
+            va[(op, name)] = Mx @ V[:, 0]
+    return sc, va
+
+
+def rel_differ(got, want, scale, tol=TOL):
+    """entrywise |got - want| > tol*scale (scale 0: must be exactly equal)"""
+    if got is None or want is None or got.shape != want.shape or np.isnan(got).any():
+        return True
+    return bool(np.any(np.abs(got - want) > tol * scale))
+
+
+def guise_tol(name):
+    """a float32 input may legitimately be processed in single precision (numpy/scipy keep the input precision):
+    1e-5 relative there; all other guises carry the same float64 numbers"""
+    return 1e-5 if name == "float32" else TOL
 
 
 REPS = ("cu_par", "cu_fun", "samples")
@@ -226,14 +314,14 @@ def probe_reps(make_model, M, res):
                 else:
                     f = getattr(M, meth)
                 if rep == "samples":
-                    out = _plain(f(Samples(V.copy(), geometry=geo)))
+                    out = _plain(f(Samples(V.copy(), geometry=geo))).copy()
                 else:
                     colsout = []
                     for j in range(V.shape[1]):
                         v = V[:, j].copy()
                         arg = CUQIarray(v, is_par=True, geometry=geo) if rep == "cu_par" else \
                             CUQIarray(np.asarray(geo.par2fun(v)), is_par=False, geometry=geo)
-                        colsout.append(_plain(f(arg)).reshape(-1))
+                        colsout.append(_plain(f(arg)).reshape(-1).copy())
                     out = np.column_stack(colsout)
                 res["rep"][(op, rep)] = out
             except Exception as e:
@@ -297,6 +385,40 @@ def oracle_linear(ctx, res, keyf, desc, adjoint_pair=True, exact=False):
     if tb:
         ctx.fail(keyf("T"), desc, "T swaps forward and adjoint (and transposes the matrix)", tb, "transposed model is not the swap of forward and adjoint")
         bad.add("T")
+    # ---- homogeneity / array guises / caller arrays / retained outputs (implementation only)
+    if "scaled" in res:
+        X, Y = res["repX"], res["repY"]
+        sc, va = inputs_expected(res, F, Ad)
+        hb = []
+        for (op, s_), want in sc.items():
+            V = X if op == "fwd" else Y
+            Mx = F if op == "fwd" else Ad
+            scale = s_ * res["opmag"] * np.abs(V).sum(axis=0).max()
+            got = res["scaled"].get((op, s_))
+            if rel_differ(got, want, scale):
+                hb.append({"op": op, "scale": s_, "input": (s_ * V[:, 0]).tolist(), "got": None if got is None else got[:, 0].tolist(), "s*f(x)": want[:, 0].tolist()})
+        if hb:
+            ctx.fail(keyf("homogeneity"), {**desc, "first": hb[0], "n": len(hb)}, "f(s*x) = s*f(x) for every scale s (a linear map has no absolute threshold), f(0) = 0",
+                     [f"{h['op']}(x*{h['scale']:g})" for h in hb], "forward/adjoint are not homogeneous: <A x, s*y> != <x, A*(s*y)>")
+            bad.add("homogeneity")
+        vb = []
+        for (op, name), want in va.items():
+            Mx = F if op == "fwd" else Ad
+            V = X if op == "fwd" else Y
+            scale = res["opmag"] * np.abs(V[:, 0]).sum()
+            if rel_differ(res["variants"].get((op, name)), want, scale, guise_tol(name)):
+                vb.append(f"{op}({name})" + (": " + res["variants"].get((op, name, "err"), "") if res["variants"].get((op, name)) is None else ""))
+        if vb:
+            ctx.fail(keyf("input-guise"), desc, "same result for the same numbers as int64 / float32 / strided / negative-stride / read-only array", vb,
+                     "forward/adjoint depend on dtype / memory layout / writability of the input array")
+            bad.add("input-guise")
+        if res["input_modified"]:
+            ctx.fail(keyf("caller-array-modified"), desc, "the caller's input vector is left untouched", res["input_modified"], "forward/adjoint modify their input array")
+            bad.add("caller-array-modified")
+        if res["retained_changed"] and not desc.get("callable_reuses_buffer"):
+            ctx.fail(keyf("retained-output"), desc, "arrays returned by earlier calls keep their values", f"{res['retained_changed']} of {res['retained_n']} changed",
+                     "a later call overwrote an array returned earlier")
+            bad.add("retained-output")
     # ---- every input representation: same parameter-valued result as for plain arrays, T is the swap, identity holds
     if "rep" in res:
         X, Y = res["repX"], res["repY"]
@@ -361,6 +483,25 @@ def tie_linear(ctx, out, res, tiekey, desc, exact, keyf, adjoint_pair=True):
                 if want is None or got is None or not same(want, got, False):
                     ctx.disagree(tiekey, {**desc, "what": f"{op}({rep})"}, None if want is None else want.tolist(),
                                  res["rep"].get((op, rep, "err")) if got is None else got.tolist(), f"{op} on {rep} input differs from the model's map")
+                    ok = False
+        if "scaled" in res and "fwd" in f and f["fwd"] != "err" and f.get("adj", "err") != "err":
+            Pf, Pa = parse_L(f["fwd"]), parse_L(f["adj"])
+            sc, va = inputs_expected(res, Pf, Pa)
+            X, Y = res["repX"], res["repY"]
+            for (op, s_), want in sc.items():
+                V = X if op == "fwd" else Y; Mx = Pf if op == "fwd" else Pa
+                scale = s_ * res["opmag"] * np.abs(V).sum(axis=0).max()
+                got = res["scaled"].get((op, s_))
+                if rel_differ(got, want, scale):
+                    ctx.disagree(tiekey, {**desc, "what": f"{op}(x*{s_:g})", "input": (s_ * V[:, 0]).tolist()}, want[:, 0].tolist(),
+                                 None if got is None else got[:, 0].tolist(), f"{op} on an input scaled by {s_:g} differs from the model's (linear) map")
+                    ok = False
+            for (op, name), want in va.items():
+                V = X if op == "fwd" else Y; Mx = Pf if op == "fwd" else Pa
+                scale = res["opmag"] * np.abs(V[:, 0]).sum()
+                got = res["variants"].get((op, name))
+                if rel_differ(got, want, scale, guise_tol(name)):
+                    ctx.disagree(tiekey, {**desc, "what": f"{op}({name})"}, want.tolist(), None if got is None else got.tolist(), f"{op} on a {name} input differs from the model's map")
                     ok = False
     if not ok:
         # failing-input search at the disagreeing case: does the property itself fail here?
@@ -474,7 +615,7 @@ def _run(ctx):
         jobs.append((f"geom step:{n}:{s}", h_ref))
 
     # ================================================================ LinearModel under every geometry pair
-    def lin_case(gd, gr, kind, sparse, wrong_adjoint=False, tag="", A_fixed=None, funcs=None, casekind=None, preserve=None):
+    def lin_case(gd, gr, kind, sparse, wrong_adjoint=False, tag="", A_fixed=None, funcs=None, casekind=None, preserve=None, extra_desc=None):
         nD, nR = gd.fun_dim, gr.fun_dim
         A = nrs.randint(-3, 4, size=(nR, nD)).astype(float) if A_fixed is None else np.asarray(A_fixed, dtype=float)
         if wrong_adjoint:
@@ -486,7 +627,7 @@ def _run(ctx):
         fam = "expansion" if "expansion" in (gd.family, gr.family) else "plain"
         exact = gd.exact and gr.exact
         keep_subclass = (rng.random() < 0.5) if preserve is None else preserve
-        desc = {"kind": kind, "callables_keep_ndarray_subclass": keep_subclass, "dom": gd.label, "rng": gr.label, "dom_token": gd.token[:40], "rng_token": gr.token[:40],
+        desc = {**(extra_desc or {}), "kind": kind, "callables_keep_ndarray_subclass": keep_subclass, "dom": gd.label, "rng": gr.label, "dom_token": gd.token[:40], "rng_token": gr.token[:40],
                 "A": A.tolist(), "sparse": sparse, "wrong_adjoint": wrong_adjoint}
 
         def make_model():
@@ -515,7 +656,11 @@ def _run(ctx):
 
         def h(out):
             ctx.case(casekind or f"lin-{kind}-{fam}", desc)
+            A_before = A.copy()
             res = probe(make_model)
+            if not np.array_equal(A, A_before):
+                ctx.fail(keyf("caller-array-modified"), desc, "the matrix handed to LinearModel is left untouched by forward/adjoint/get_matrix/T", "modified",
+                         "read-only operations of the model modify the caller's matrix")
             tie_linear(ctx, out, res, f"tie:LinearModel:{kind}:{gd.label}>{gr.label}", desc, exact, keyf, adjoint_pair=not wrong_adjoint)
             bad = oracle_linear(ctx, res, keyf, desc, adjoint_pair=not wrong_adjoint, exact=exact)
             hist = ctx.extra_cov.setdefault("oracle_verdicts", {})
@@ -595,6 +740,16 @@ def _run(ctx):
         alias_cases.append(("image-ravel", gI(r, c), g1("Continuous1D", N), np.eye(N), (lambda X: X.ravel(), lambda y, r=r, c=c: y.reshape(r, c))))
     for (name, gd_, gr_, A_, fa) in alias_cases:
         lin_case(gd_, gr_, "fn", "dense", tag="@alias:" + name, A_fixed=A_, funcs=fa, casekind="lin-fn-alias-" + name)
+    # callables that return THE SAME array object on every call (a reused work buffer)
+    for (nr_, nc_) in ((3, 4), (4, 4)):
+        Ab = nrs.randint(-3, 4, size=(nr_, nc_)).astype(float)
+        bf, ba = np.zeros(nr_), np.zeros(nc_)
+        def fbuf(x, Ab=Ab, bf=bf):
+            bf[:] = Ab @ np.asarray(x, dtype=float); return bf
+        def abuf(y, Ab=Ab, ba=ba):
+            ba[:] = Ab.T @ np.asarray(y, dtype=float); return ba
+        lin_case(g1("Continuous1D", nc_), g1("Default1D", nr_), "fn", "dense", tag="@alias:reused-buffer", A_fixed=Ab, funcs=(fbuf, abuf),
+                 casekind="lin-fn-alias-buffer", extra_desc={"callable_reuses_buffer": True})
 
     # ---- domain and range geometries of the SAME class and parameter size but different parameters, with operators
     # that keep the ndarray subclass (matrix-backed `M @ x`, callables doing arithmetic on their argument): a CUQIarray
@@ -648,6 +803,151 @@ def _run(ctx):
     for c_ in (1e-9, 1e9):
         lin_case(gI(2, 2, "C"), gI(2, 2, "F"), "fn", "dense", tag=f"@scale:{c_:g}*tril(M)", preserve=True,
                  A_fixed=c_ * np.tril(nrs.randint(1, 5, size=(4, 4)).astype(float)), casekind="lin-scale-fn")
+
+    # ---- HISTORIES on one object (G2/G3/G5/G7): the matrix handed over in every memory layout / dtype, used, then modified
+    # IN PLACE through the caller's reference or through get_matrix(); afterwards forward / adjoint / get_matrix / T
+    # (built before and after the modification) must be mutually consistent and equal to what the code's live reference
+    # to the array implies (the model's prediction for the CURRENT values).
+    def probe_obj(M, Tb):
+        r = {"n": int(M.domain_dim), "m": int(M.range_dim), "ip": []}
+        with quiet():
+            for nm_, fn_ in (("fwd", lambda: cols(M.forward, r["n"])), ("adj", lambda: cols(M.adjoint, r["m"])),
+                             ("gm", lambda: dense(M.get_matrix())), ("gm2", lambda: dense(M.get_matrix())),
+                             ("tfwd", lambda: cols(M.T.forward, r["m"])), ("tadj", lambda: cols(M.T.adjoint, r["n"])),
+                             ("tgm", lambda: dense(M.T.get_matrix())),
+                             ("tbfwd", lambda: cols(Tb.forward, r["m"])), ("tbgm", lambda: dense(Tb.get_matrix()))):
+                try:
+                    r[nm_] = np.array(fn_(), dtype=float, copy=True)
+                except Exception as e:
+                    r[nm_] = None; r[nm_ + "_err"] = repr(e)[:100]
+        return r
+
+    def after_history(ctx, out, r, tiekey, desc, keyf, exact, drop=()):
+        if drop:
+            out = " ".join(t for t in out.split(" ") if t.split("=")[0] not in drop)
+        tie_linear(ctx, out, r, tiekey, desc, exact, keyf)
+        oracle_linear(ctx, r, keyf, desc, exact=exact)
+        # the transposed model taken BEFORE the modification / re-assignment behaves like one taken now
+        def eqn(a, b):
+            return (a is None and b is None) or (a is not None and b is not None and not differ(a, b, exact))
+        tb = []
+        if not eqn(r["tbfwd"], r["tfwd"]):
+            tb.append("T taken earlier: forward differs from the forward of T taken now")
+        if "tgm" not in drop and not eqn(r["tbgm"], r["tgm"]):
+            tb.append("T taken earlier: get_matrix() differs from that of T taken now")
+        if tb:
+            ctx.disagree(tiekey, desc, "same as a transposed model taken now", tb, "transposed model taken before the modification is stale")
+            ctx.fail(tiekey, desc, "T taken earlier = T taken now (both follow the current matrix / geometry)", tb, "transposed model taken before an in-place modification is stale")
+            ctx.fail(keyf("T-stale"), desc, "T taken earlier = T taken now (both follow the current matrix / geometry)", tb, "transposed model taken before an in-place modification is stale")
+
+    LAYOUTS = ("C", "F", "Tview", "strided", "int64", "float32", "csc", "csr", "readonly")
+    MUTS = ("none", "entry", "diag", "via-get_matrix")
+    def history_mb(layout, mut, nR, nD, expansion=False):
+        A0 = nrs.randint(-3, 4, size=(nR, nD)).astype(float); A0[nR - 1, 0] = 3.0; A0[0, nD - 1] = -2.0
+        A1 = A0.copy()
+        if mut == "entry":
+            A1[min(1, nR - 1), min(2, nD - 1)] += 10
+        elif mut == "diag":
+            if layout in ("csc", "csr"):
+                A1 = 3 * A1          # sparse: scale the stored data in place
+            else:
+                np.fill_diagonal(A1, 0)
+        elif mut == "via-get_matrix":
+            A1 = 3 * A1
+        gd_ = gS(nD, max(1, nD // 2)) if expansion else g1(rng.choice(["Continuous1D", "Discrete", "Default1D"]), nD)
+        gr_ = g1(rng.choice(["Continuous1D", "Discrete", "Default1D"]), nR)
+        fam = "expansion" if expansion else "plain"
+        exact = not expansion
+        desc = {"history": "matrix modified in place after first use", "layout": layout, "mutation": mut, "A_before": A0.tolist(), "A_after": A1.tolist(),
+                "dom": gd_.label, "rng": gr_.label}
+        tag = f"@history:{layout}:{mut}"
+        keyf = lambda aspect: f"LinearModel:{aspect}:mb:{fam}:{gd_.label}>{gr_.label}{tag}"
+        tiekey = f"tie:LinearModel:mb:history:{layout}:{mut}"
+        def h(out):
+            ctx.case("lin-history-mb", desc)
+            if layout == "C": obj = np.array(A0, order="C")
+            elif layout == "F": obj = np.asfortranarray(A0)
+            elif layout == "Tview": obj = np.array(A0.T, order="C").T
+            elif layout == "strided":
+                big = np.zeros((2 * nR, 2 * nD)); big[::2, ::2] = A0; obj = big[::2, ::2]
+            elif layout == "int64": obj = A0.astype(np.int64)
+            elif layout == "float32": obj = A0.astype(np.float32)
+            elif layout == "csc": obj = csc_matrix(A0)
+            elif layout == "csr": obj = csr_matrix(A0)
+            else:
+                obj = np.array(A0); obj.setflags(write=False)
+            with quiet():
+                M = LinearModel(obj, range_geometry=gr_.make(), domain_geometry=gd_.make())
+                # first use (fills whatever caches exist)
+                M.forward(np.ones(M.domain_dim)); M.adjoint(np.ones(M.range_dim)); M.get_matrix()
+                Tb = M.T
+                try:
+                    Tb.forward(np.ones(M.range_dim)); Tb.get_matrix()
+                except Exception:
+                    pass          # (T of expansion geometries raises: known finding, reported by the oracle below)
+            if not np.array_equal(dense(obj), A0):
+                ctx.fail(keyf("caller-array-modified"), desc, "matrix untouched by read-only use", dense(obj).tolist(), "first use of the model modified the caller's matrix")
+            with quiet():
+                if mut == "entry":
+                    obj[min(1, nR - 1), min(2, nD - 1)] += 10
+                elif mut == "diag":
+                    if layout in ("csc", "csr"): obj.data *= 3
+                    else: np.fill_diagonal(obj, 0)
+                elif mut == "via-get_matrix":
+                    Gm = M.get_matrix()
+                    if layout in ("csc", "csr"): Gm.data *= 3
+                    else: Gm[:] *= 3
+            if not np.array_equal(dense(obj), A1):
+                ctx.note(f"history generator: array after mutation is not the predicted one ({layout}, {mut})"); return
+            after_history(ctx, out, probe_obj(M, Tb), tiekey, desc, keyf, exact)
+        jobs.append((f"lin mb {qm(A1)} - {gd_.token} {gr_.token}", h))
+
+    for layout in LAYOUTS:
+        for mut in MUTS:
+            if layout == "readonly" and mut != "none":
+                continue
+            if layout in ("csc", "csr") and mut == "entry":
+                continue          # (assigning a single entry of a sparse matrix is not an in-place update of its data)
+            nR, nD = rng.choice([(3, 3), (3, 4), (4, 3)])
+            history_mb(layout, mut, nR, nD)
+            if thorough or (layout in ("C", "F", "csr") and mut in ("entry", "via-get_matrix")):
+                history_mb(layout, mut, nR, nD, expansion=True)
+
+    # function-backed histories: get_matrix() (which caches) BEFORE T / further calls; a geometry RE-ASSIGNED after first use
+    def history_fn(gd_, gr_, gd_new, cached):
+        nD, nR = gd_.fun_dim, gr_.fun_dim
+        A0 = nrs.randint(-3, 4, size=(nR, nD)).astype(float)
+        gnow = gd_new or gd_
+        reass = gd_new is not None
+        desc = {"history": ("get_matrix() cached, then " if cached else "") + ("domain geometry re-assigned, then " if reass else "") + "forward/adjoint/get_matrix/T",
+                "A": A0.tolist(), "dom": gd_.label, "rng": gr_.label, "dom_new": gd_new.label if reass else None, "dom_token": gnow.token[:40], "rng_token": gr_.token[:40]}
+        tag = "@history:" + ("geometry-reassigned" if reass else "get_matrix-first") + ("-after-get_matrix" if (reass and cached) else "")
+        fam = "expansion" if "expansion" in (gnow.family, gr_.family) else "plain"
+        keyf = lambda aspect: f"LinearModel:{aspect}:fn:{fam}:{gnow.label}>{gr_.label}{tag}"
+        tiekey = "tie:LinearModel:fn:history:" + tag[9:]
+        def h(out):
+            ctx.case("lin-history-fn", desc)
+            with quiet():
+                fsr = gr_.fun_shape
+                M = LinearModel(lambda x: (A0 @ x.ravel()).reshape(fsr), lambda y: (A0.T @ y.ravel()).reshape(M.domain_geometry.fun_shape),
+                                gr_.make(), gd_.make())
+                M.forward(np.ones(M.domain_dim)); M.adjoint(np.ones(M.range_dim))
+                if cached:
+                    M.get_matrix()
+                if reass:
+                    M.domain_geometry = gd_new.make()
+                Tb = M.T
+            # with a cached matrix and a new geometry the model (which has no cache) does not predict get_matrix / T.get_matrix
+            drop = ("gm", "tgm") if (reass and cached) else ()
+            after_history(ctx, out, probe_obj(M, Tb), tiekey, desc, keyf, gnow.exact and gr_.exact, drop=drop)
+        jobs.append((f"lin fn {qm(A0)} {qm(A0.T)} {gnow.token} {gr_.token}", h))
+
+    for cached in (True, False):
+        history_fn(gI(2, 3, "C"), gI(3, 2, "F"), None, cached)
+        history_fn(g1("Continuous1D", 4), gI(2, 2, "F"), None, cached)
+        history_fn(gI(2, 2, "F"), g1("Discrete", 3), None, cached)
+        history_fn(gI(2, 3, "C"), g1("Continuous1D", 4), gI(2, 3, "F"), cached)
+        history_fn(g1("Continuous1D", 4), g1("Continuous1D", 3), gI(2, 2, "F"), cached)
 
     # the class of inputs where geometry equality is asymmetric: `_DefaultGeometry1D.__eq__` accepts every Continuous1D
     # subclass with the same grid, so a default domain "equals" a StepExpansion range on the grid 0..n-1 and the
@@ -877,7 +1177,8 @@ def _run(ctx):
         for prm in (1e-3, 0.3, 1e3):
             deconv2_case(4, rng.choice(bcs2), named=named, size=rng.choice([3, 5]), param=prm)
     # the shipped default PSF (Gauss, PSF_size=21, PSF_param=2.56) under Neumann and periodic boundaries, and odd named sizes under Neumann
-    deconv2_case(6, "Neumann", named="gauss", size=21, param=2.56); deconv2_case(6, "periodic", named="gauss", size=21, param=2.56)
+    nd_ = 6 if thorough else 3      # (the exact model of a 21x21 PSF costs n^4 * 441 rational operations)
+    deconv2_case(nd_, "Neumann", named="gauss", size=21, param=2.56); deconv2_case(nd_, "periodic", named="gauss", size=21, param=2.56)
     for named in ("gauss", "moffat"):
         for size in (3, 5, 7):
             deconv2_case(5, "neumann", named=named, size=size, param=rng.choice([1.0, 2.56]))
